@@ -169,6 +169,16 @@ func Arrange(t *rapid.T, s *hx.Schema, o hx.SDLOpts, label string, allowExtend b
 			mk("extend "+ext.RootsSDL(), "", "schema", n2)
 		}
 	}
+	if s.Roots == nil && len(s.ExtRoots) > 0 {
+		// the implicit schema is extended: the block may sit anywhere, in any load that has the types it names
+		n := needSet{}
+		for _, tn := range s.ExtRoots {
+			n[tn] = true
+		}
+		mk(s.ExtRootsSDL(), "", "schema", n)
+		delete(n, "schema") // (there is no definition of "schema" to wait for)
+		pieces[len(pieces)-1].Needs = n.list()
+	}
 	for _, td := range s.Types {
 		lab := label + td.Name
 		base := *td
